@@ -11,6 +11,7 @@ import struct
 from types import SimpleNamespace
 from unittest import mock
 
+from pjrpc.client.tracer import LoggingTracer
 from . import core
 from .core import enc, dec
 from . import userclasses as U
@@ -338,7 +339,7 @@ def run_send(c, is_async):
     supplied = SimpleNamespace() if cl['caller_ctx'] else None
     tracers = [RecTracer(i, trace, ctxs, supplied) for i in range(int(cl['tracers']))]
     kw = client_kwargs(cl)
-    kw['tracers'] = tracers
+    kw['tracers'] = ([LoggingTracer()] if cl.get('logging_tracer') else []) + tracers
     kw['retry_strategy'] = make_strategy(cl.get('retry'))
     sess = c.get('session')
     if sess is not None and (sess, is_async) in _SESSIONS:
